@@ -325,6 +325,9 @@ SRW_CORPUS = [
     # a writer downgrades while readers sleep behind it and no writer is pending: the downgrade itself must wake them (nothing else will)
     [["lock"] + W8 + W8 + ["downgrade"] + W8 + W8 + ["unlock_shared"], ["lock_shared"] + W8 + ["unlock_shared"], ["lock_shared"] + W8 + ["unlock_shared"]],
     [["lock"] + W8 + W8 + ["downgrade"] + W8 + ["unlock_shared"], ["work", "lock_shared", "unlock_shared", "lock_shared", "unlock_shared"]],
+    # ... and the downgraded holder keeps its shared lock until a reader got in (`await_reader` is a harness-level wait, not a mutex operation)
+    [["lock"] + W8 + W8 + ["downgrade", "await_reader", "unlock_shared"], ["lock_shared"] + W8 + ["unlock_shared"]],
+    [["lock"] + W8 + W8 + W8 + ["downgrade", "await_reader"] + W8 + ["unlock_shared"], ["lock_shared", "unlock_shared"], ["work", "work", "lock_shared"] + W8 + ["unlock_shared"]],
     [["lock_shared"] + W8 + ["unlock_shared"] + W8 + ["lock", "unlock"], ["lock"] + W8 + ["unlock"] + W8 + ["lock_shared", "unlock_shared"],
      ["try_lock_shared"] + W8 + ["upgrade"] + W8 + ["downgrade", "unlock_shared"], ["lock"] + W8 + ["unlock"]],
 ]
